@@ -267,9 +267,12 @@ impl<F: Field, EF: ExtensionField<F> + BasedVectorSpace<F>, RecMmcs: RecursiveEx
 
     fn new(circuit: &mut CircuitBuilder<EF>, input: &Self::Input) -> Self {
         let log_arity = input.log_arity as usize;
-        let arity = 1usize << log_arity;
-        let num_siblings = arity - 1;
-        let num_coeffs = num_siblings * EF::DIMENSION;
+        // One group of `EF::DIMENSION` coefficients per sibling value carried by the proof (what
+        // `get_private_values` supplies). `log_arity` is prover-supplied: sizing the allocation
+        // with `2^log_arity - 1` would overflow or exhaust memory on a malformed proof. The
+        // verifier (`verify_fri_circuit`) rejects a count different from
+        // `(2^log_arity - 1) * EF::DIMENSION`.
+        let num_coeffs = input.sibling_values.len() * EF::DIMENSION;
         let sibling_coefficients =
             circuit.alloc_private_inputs(num_coeffs, "FRI commit phase sibling coefficients");
         let opening_proof = RecMmcs::Proof::new(circuit, &input.opening_proof);
